@@ -13,6 +13,7 @@
 (* destination pixels per source pixel, 3 PAD repeat, 4 scale 1 + 1/65536, 5 a 1x1 image with *)
 (* NORMAL repeat (solid), 6 PAD repeat with scale 1 + 1/65536, 7 a solid-fill image whose     *)
 (* 16-bit a r g b are logged in src; mpres 1: a 1x1 repeating mask, 2: a solid-fill mask.      *)
+(* pres 8 / mpres 3: a general affine matrix that samples the same pixels (one unit of shear).  *)
 (* A solid-fill image counts as a narrow format for the choice of the class (pixman works on  *)
 (* its 8 most significant bits there); the real-valued equations use its true 16-bit value.   *)
 (* The source pixel that destination pixel i sees is SrcPos (the sampling rule itself is      *)
@@ -25,7 +26,7 @@ Code(c) == <<c[1], c[2]>>
 
 ClampI(x, lo, hi) == IF x < lo THEN lo ELSE IF x > hi THEN hi ELSE x
 SrcPos(ev, i) ==
-    CASE ev.pres \in {0, 1, 4} -> ev.sx + i
+    CASE ev.pres \in {0, 1, 4, 8} -> ev.sx + i
       [] ev.pres = 2 -> (ev.sx + i) \div 2
       [] ev.pres \in {3, 6} -> ClampI(ev.sx + i, 0, ev.sw - 1)
       [] ev.pres \in {5, 7} -> 0
